@@ -569,8 +569,39 @@ def gen_include_file(r, c: Ctx) -> str:
 # ------------------------------------------------------------------ configuration
 
 
-def gen_config(r, front_end="docutils", inventories=None) -> dict:
-    """MdParserConfig keyword values (JSON-able)."""
+def gen_config(r, front_end="docutils", inventories=None, rich=False) -> dict:
+    """MdParserConfig keyword values (JSON-able). ``rich`` draws the rarer fields about three times as often
+    (configuration-dependent recovery paths) and adds a few fields the plain mode never sets."""
+    if rich:
+        plain = r.random
+
+        class _Boost:
+            """random() that makes every 'rare field' threshold about three times as likely to pass."""
+
+            def __getattr__(self, name):
+                return getattr(r, name)
+
+            def random(self):
+                return plain() / 3.0
+
+        cfg = gen_config(_Boost(), front_end, inventories, rich=False)
+        k = plain()  # the extension subset keeps its ordinary distribution
+        cfg["enable_extensions"] = [] if k < 0.1 else list(EXTENSIONS) if k < 0.3 else sorted(
+            r.sample(EXTENSIONS, k=r.randint(1, len(EXTENSIONS) - 1)))
+        if "substitution" not in cfg["enable_extensions"]:
+            cfg.pop("sub_delimiters", None)
+        if plain() < 0.3:
+            cfg["links_external_new_tab"] = True
+        if plain() < 0.2:
+            cfg["ref_domains"] = r.choice([["std"], ["py"], ["std", "py"], []])
+        if plain() < 0.2 and "substitution" in cfg["enable_extensions"]:
+            cfg["sub_delimiters"] = r.choice([["|", "|"], ["[", "]"]])
+        for flag in ("dmath_allow_labels", "dmath_allow_space", "dmath_allow_digits"):
+            if plain() < 0.15:
+                cfg[flag] = False
+        if plain() < 0.2:
+            cfg["dmath_double_inline"] = True
+        return cfg
     cfg: dict = {}
     k = r.random()
     if k < 0.15:
